@@ -756,6 +756,11 @@ void execute_arrow_assignment(StatementExecutor *executor,
         throw std::runtime_error("Invalid arrow access in assignment");
     }
 
+    // constポインタチェック（const T* 経由でのメンバ変更を禁止）
+    // ptr->member = v は (*ptr).member = v と等価なので同じ検査を行う
+    AssignmentHelpers::check_const_pointer_modification(
+        interpreter, arrow_access->left.get());
+
     // v0.11.0 Week 2 Day 3: ptr[index]->member = value パターン対応
     // 左側がポインタ配列アクセス (ptr[0])
     // の場合、ReturnExceptionで構造体が返される
